@@ -73,6 +73,7 @@ def comp : Component where
     | b :: _ => some { redis := b == "redis", im := Inmem.new, rd := Redis.new, sp := Spec.new, seenI := [], seenS := [] }
     | _ => none
   step := fun st ws => match ws with
+    | _ :: "subms" :: _ => some (st, "ok")     -- sub-millisecond expiry scenario: Go-side monitor only (the model's clock ticks in ms)
     | now :: rest => do
       let now ← now.toNat?
       let opI ← parseOp st.seenI rest
